@@ -340,6 +340,16 @@ func ruleSchema(r *Run) {
 	ws := buildWriterSchema(p, roots)
 	r.Count("writer_structs", len(ws.Structs))
 
+	// the writer only writes exported fields: an XML tag on an unexported field is dead
+	for _, n := range ws.Structs {
+		for _, sf := range ws.Fields[n] {
+			if !sf.Var.Exported() {
+				r.Trivial("schema-exported", typeName(n)+"."+sf.Var.Name(), sf.Var.Pos(), false,
+					fmt.Sprintf("field %s.%s carries the XML tag %q but is unexported: encoding/xml neither writes nor reads it, so the value set through the API never reaches the saved part", typeName(n), sf.Var.Name(), sf.Tag.Name))
+			}
+		}
+	}
+
 	// body kinds must be produced by the reader
 	rootViol := map[*types.Named]bool{}
 	for _, n := range roots {
